@@ -88,6 +88,78 @@ theorem bytesCursor_faithful : Faithful bytesCursorInput sliceRel where
     simp [this]; omega
   bounded := by rintro bs s ⟨rfl, hb⟩; exact hb
 
+/-- `BytesCursor` with its position arithmetic (`cursorInput`: whole buffer + running position,
+    `advance`/`split_to` in the zero-copy hook) is faithful: at every moment it still has exactly
+    `buffer[position ..]` to deliver. -/
+def cursorRel : Bytes → Bytes × Nat → Prop := fun bs s => s.1.drop s.2 = bs ∧ s.2 ≤ s.1.length ∧ bs.length ≤ usizeMax
+
+theorem cursor_faithful : Faithful cursorInput cursorRel where
+  remainingLen := by
+    rintro bs ⟨buf, pos⟩ ⟨h, hp, hb⟩
+    simp only at h hp
+    subst h
+    refine ⟨Or.inr ?_, rfl, hp, hb⟩
+    simp [cursorInput]
+  read_ok := by
+    rintro n bs ⟨buf, pos⟩ ⟨h, hp, hb⟩ hn
+    simp only at h hp
+    subst h
+    simp only [List.length_drop] at hn hb
+    have h1 : ¬ n > buf.length - pos := by omega
+    have e : cursorInput.read n (buf, pos) = (.ok ((buf.drop pos).take n), (buf, pos + n)) := by
+      simp only [cursorInput, h1, if_false]
+    rw [e]
+    refine ⟨rfl, ?_, ?_, ?_⟩
+    · show buf.drop (pos + n) = (buf.drop pos).drop n
+      rw [List.drop_drop]
+    · show pos + n ≤ buf.length
+      omega
+    · simp only [List.length_drop]; omega
+  read_err := by
+    rintro n bs ⟨buf, pos⟩ ⟨h, hp, hb⟩ hn
+    simp only at h hp
+    subst h
+    simp only [List.length_drop] at hn
+    simp only [cursorInput, hn, if_true]
+  readByte_ok := by
+    rintro b bs ⟨buf, pos⟩ ⟨h, hp, hb⟩
+    simp only at h hp
+    have e : cursorInput.readByte (buf, pos) = (.ok b, (buf, pos + 1)) := by
+      simp only [cursorInput, h]
+    rw [e]
+    have hl : (buf.drop pos).length = bs.length + 1 := by rw [h]; simp
+    simp only [List.length_drop] at hl
+    refine ⟨rfl, ?_, ?_, ?_⟩
+    · show buf.drop (pos + 1) = bs
+      have : buf.drop (pos + 1) = (buf.drop pos).drop 1 := by rw [List.drop_drop]
+      rw [this, h]; rfl
+    · show pos + 1 ≤ buf.length
+      omega
+    · simp at hb; omega
+  readByte_err := by
+    rintro ⟨buf, pos⟩ ⟨h, _, _⟩
+    simp only at h
+    simp only [cursorInput, h]
+  descend := by rintro bs s hr; exact ⟨rfl, hr⟩
+  ascend := by rintro bs s hr; exact hr
+  onAlloc := by rintro n bs s hr; exact ⟨rfl, hr⟩
+  raw := by
+    intro f hf n bs ⟨buf, pos⟩ ⟨h, hp, hb⟩
+    simp only at h hp
+    simp only [cursorInput, Option.some.injEq] at hf
+    subst hf
+    simp only [h]
+    refine ⟨fun hn => ?_, fun hn => by simp [hn]⟩
+    have h1 : ¬ n > bs.length := by omega
+    simp only [h1, if_false]
+    refine ⟨trivial, ?_, ?_, ?_⟩
+    · show (bs.drop n).drop 0 = bs.drop n
+      rfl
+    · show 0 ≤ (bs.drop n).length
+      omega
+    · simp only [List.length_drop]; omega
+  bounded := by rintro bs s ⟨_, _, hb⟩; exact hb
+
 /-- `CountedInput` over a faithful input is faithful (it forwards every call and only counts). -/
 theorem counted_faithful {σ : Type} {I : InputOps σ} {R : Bytes → σ → Prop} (h : Faithful I R) :
     Faithful (countedInput I) (fun bs s => R bs s.1) where
@@ -158,5 +230,8 @@ theorem wrappers_never_add_success {σ α : Type} (I : InputOps σ) (hraw : I.ra
 example : sliceRel [1, 2, 3] [1, 2, 3] := ⟨rfl, by decide⟩
 example : (run ioInput (Impl.decodeP (.seq .vec 1 (.prim .u8))) [8, 1, 2, 9]).2 = [9] := by decide
 example : (run bytesCursorInput (Impl.decodeP .bytes) [8, 1, 2, 9]).2 = [9] := by decide
+example : cursorRel [8, 1, 2, 9] ([7, 8, 1, 2, 9], 1) := ⟨rfl, by decide, by decide⟩
+example : (run cursorInput (Impl.decodeP (.tuple [.prim .u8, .bytes, .prim .u8])) ([7, 8, 1, 2, 9], 0)).2 = ([9], 1) := by
+  decide
 
 end Scale.C08
